@@ -120,6 +120,27 @@ impl<L: Language> Has<L> {
   }
 }
 
+impl<L: Language> Has<L> {
+  /// Search the descendants of `node`, not descending below a node that matches `stop`.
+  fn match_descendants_until<'tree, D: Doc<Lang = L>>(
+    &self,
+    node: Node<'tree, D>,
+    stop: &Rule<L>,
+    env: &mut Cow<MetaVarEnv<'tree, D>>,
+  ) -> Option<Node<'tree, D>> {
+    // TODO: use Pre traversal to reduce stack allocation
+    node.children().find_map(|n| {
+      self.inner.match_node_with_env(n.clone(), env).or_else(|| {
+        if n.matches(stop) {
+          None
+        } else {
+          self.match_descendants_until(n, stop, env)
+        }
+      })
+    })
+  }
+}
+
 impl<L: Language> Matcher<L> for Has<L> {
   fn match_node_with_env<'tree, D: Doc<Lang = L>>(
     &self,
@@ -139,8 +160,7 @@ impl<L: Language> Matcher<L> for Has<L> {
             if nd.matches(matcher) {
               None
             } else {
-              nd.children()
-                .find_map(|n| self.inner.match_node_with_env(n, env))
+              self.match_descendants_until(nd, matcher, env)
             }
           })
         }
@@ -154,18 +174,7 @@ impl<L: Language> Matcher<L> for Has<L> {
         .dfs()
         .skip(1)
         .find_map(|n| self.inner.match_node_with_env(n, env)),
-      StopBy::Rule(matcher) => {
-        // TODO: use Pre traversal to reduce stack allocation
-        node.children().find_map(|n| {
-          self.inner.match_node_with_env(n.clone(), env).or_else(|| {
-            if n.matches(matcher) {
-              None
-            } else {
-              self.match_node_with_env(n, env)
-            }
-          })
-        })
-      }
+      StopBy::Rule(matcher) => self.match_descendants_until(node, matcher, env),
     }
   }
 }
